@@ -46,6 +46,6 @@ FileJudge ==
                     PrintT(ToJson(<<"IP", c.t, c.neg, c.prefix, c.body, r.valid, r.accept, r.d>>))
     [] c.k = "F" -> LET r == FixedLiteral(TypeInfo[c.t], c.neg, c.ip, c.fp) IN
                     PrintT(ToJson(<<"FP", c.t, c.neg, c.ip, c.fp, r.valid, r.accept, r.d, r.why>>))
-    [] c.k = "S" -> LET r == StringLiteral(c.toks) IN PrintT(ToJson(<<"S", c.toks, r.valid, r.cps, c.ch>>))
+    [] c.k = "S" -> LET r == StringLiteral(c.toks) IN PrintT(ToJson(<<"S", c.toks, r.valid, r.cps, c.ch, r.why>>))
 Judge == CASE Mode = "int" -> IntJudge [] Mode = "fix" -> FixJudge [] OTHER -> (ph = 2 => FileJudge)
 =============================================================================
